@@ -392,7 +392,7 @@ def _max_overlap(from_chunks, to_chunks):
     return reduce(mul, per_axis, 1)
 
 
-def _bound_degree(old_chunks, new_chunks, degree_limit):
+def _bound_degree(old_chunks, new_chunks, degree_limit, block_size_limit=None):
     """Subdivide one rechunk step to keep both per-block fan-in and fan-out near
     *degree_limit*.
 
@@ -409,6 +409,9 @@ def _bound_degree(old_chunks, new_chunks, degree_limit):
     bounded tightly, but degree arising purely from many simultaneously
     boundary-misaligned axes (at most ~2**ndim) cannot be reduced by adding steps,
     so it may slightly exceed the limit in that rare case.
+
+    The block-size budget, by contrast, is hard: an intermediate whose largest
+    block exceeds *block_size_limit* (in elements) is skipped.
     """
     degree_limit = max(2, degree_limit)  # below 2 nothing can merge (and log(1) == 0)
     degree = max(_max_overlap(old_chunks, new_chunks), _max_overlap(new_chunks, old_chunks))
@@ -431,6 +434,8 @@ def _bound_degree(old_chunks, new_chunks, degree_limit):
             # coarsen the finer endpoint so the intermediate aligns with it
             intermediate.append(merge_to_number(oc if no > nn else nc, count))
         intermediate = tuple(intermediate)
+        if block_size_limit is not None and _largest_block_size(intermediate) > block_size_limit:
+            continue  # interpolating axes independently can outgrow both endpoints
         if intermediate != prev:  # drop steps that make no progress
             steps.append(intermediate)
             prev = intermediate
@@ -469,12 +474,14 @@ def plan_rechunk(old_chunks, new_chunks, itemsize, threshold=None, block_size_li
     if len(new_chunks) <= 1:
         # 0-D / 1-D: no block-size planning, but still bound fan-in below.
         steps = [new_chunks]
+        size_budget = None
     else:
         block_size_limit /= itemsize
 
         largest_old_block = _largest_block_size(old_chunks)
         largest_new_block = _largest_block_size(new_chunks)
         block_size_limit = max([block_size_limit, largest_old_block, largest_new_block])
+        size_budget = block_size_limit  # also binds the degree pass below
 
         graph_size_threshold = _graph_size_threshold(old_chunks, new_chunks, threshold)
 
@@ -511,7 +518,7 @@ def plan_rechunk(old_chunks, new_chunks, itemsize, threshold=None, block_size_li
     limited = []
     prev = old_chunks
     for step in steps:
-        limited.extend(_bound_degree(prev, step, degree_limit))
+        limited.extend(_bound_degree(prev, step, degree_limit, size_budget))
         prev = step
     return limited
 
